@@ -24,7 +24,8 @@
 //   - scriptTemplateWriters: functions of package jp that assign to a `.template` field or copy into it.
 //   - recomposerWalkKinds: the reflect kinds named in the `switch ft.Kind()` of the field walk of
 //     alt.(*Recomposer).registerComposer (the container kinds whose element type is registered together
-//     with a struct); recomposerWriters / recomposerLazyCallers: the functions of package alt that
+//     with a struct), recomposerWalkLoops: whether that step is repeated (containers of containers);
+//     recomposerWriters / recomposerLazyCallers: the functions of package alt that
 //     write `.composers[...]`, and those among the callers of registerComposer / registerAnyComposer
 //     that are neither constructors nor Register* methods (registration on the fly during Recompose).
 //
@@ -1263,42 +1264,103 @@ func extractReuse(repo, out string) ([]string, error) {
 		return nil, fmt.Errorf("reuse: alt.(*Recomposer).registerComposer not found")
 	}
 	var walkKinds []string
-	foundWalk := false
-	ast.Inspect(rc.Body, func(n ast.Node) bool {
-		sw, ok := n.(*ast.SwitchStmt)
-		if !ok || sw.Tag == nil || !strings.HasSuffix(alt.src(sw.Tag), ".Kind()") {
-			return true
-		}
-		// the walk's switch is the one inside the loop over the fields whose clause takes the element type
-		takesElem := false
-		ast.Inspect(sw.Body, func(m ast.Node) bool {
+	foundWalk, walkLoops := false, false
+	hasElem := func(n ast.Node) bool {
+		found := false
+		ast.Inspect(n, func(m ast.Node) bool {
 			if ce, ok := m.(*ast.CallExpr); ok {
 				if se, ok := ce.Fun.(*ast.SelectorExpr); ok && se.Sel.Name == "Elem" {
-					takesElem = true
+					found = true
+				}
+			}
+			return !found
+		})
+		return found
+	}
+	reflectKinds := func(n ast.Node) []string {
+		var ks []string
+		ast.Inspect(n, func(m ast.Node) bool {
+			if se, ok := m.(*ast.SelectorExpr); ok {
+				if id, ok := se.X.(*ast.Ident); ok && id.Name == "reflect" {
+					ks = append(ks, se.Sel.Name)
 				}
 			}
 			return true
 		})
-		if !takesElem {
-			return true
+		return ks
+	}
+	// The walk is, inside the loop over the fields, either
+	//   switch ft.Kind() { case reflect.A, …: ft = ft.Elem() }         (one step, or repeated when it
+	//   sits in a further for statement), or
+	//   for ft.Kind() == reflect.A || … { ft = ft.Elem() }              (repeated).
+	// depth counts the enclosing for/range statements.
+	var visit func(n ast.Node, depth int)
+	visit = func(n ast.Node, depth int) {
+		if n == nil || foundWalk {
+			return
 		}
-		foundWalk = true
-		for _, c := range sw.Body.List {
-			cc := c.(*ast.CaseClause)
-			for _, l := range cc.List {
-				se, ok := l.(*ast.SelectorExpr)
-				if !ok {
-					continue
+		switch t := n.(type) {
+		case *ast.SwitchStmt:
+			if t.Tag != nil && strings.HasSuffix(alt.src(t.Tag), ".Kind()") && depth >= 1 {
+				var ks []string
+				for _, c := range t.Body.List {
+					cc := c.(*ast.CaseClause)
+					takes := false
+					for _, st := range cc.Body {
+						if hasElem(st) {
+							takes = true
+						}
+					}
+					if takes {
+						for _, l := range cc.List {
+							ks = append(ks, reflectKinds(l)...)
+						}
+					}
 				}
-				if id, ok := se.X.(*ast.Ident); ok && id.Name == "reflect" {
-					walkKinds = append(walkKinds, se.Sel.Name)
+				if len(ks) > 0 {
+					foundWalk, walkKinds, walkLoops = true, ks, depth >= 2
+					return
+				}
+			}
+		case *ast.ForStmt:
+			if t.Cond != nil && strings.Contains(alt.src(t.Cond), ".Kind()") && depth >= 1 && hasElem(t.Body) {
+				if ks := reflectKinds(t.Cond); len(ks) > 0 {
+					foundWalk, walkKinds, walkLoops = true, ks, true
+					return
+				}
+			}
+			for _, st := range t.Body.List {
+				visit(st, depth+1)
+			}
+			return
+		case *ast.RangeStmt:
+			for _, st := range t.Body.List {
+				visit(st, depth+1)
+			}
+			return
+		}
+		// other statements: descend into their blocks at the same depth
+		switch t := n.(type) {
+		case *ast.BlockStmt:
+			for _, st := range t.List {
+				visit(st, depth)
+			}
+		case *ast.IfStmt:
+			visit(t.Body, depth)
+			visit(t.Else, depth)
+		case *ast.LabeledStmt:
+			visit(t.Stmt, depth)
+		case *ast.SwitchStmt:
+			for _, c := range t.Body.List {
+				for _, st := range c.(*ast.CaseClause).Body {
+					visit(st, depth)
 				}
 			}
 		}
-		return false
-	})
+	}
+	visit(rc.Body, 0)
 	if !foundWalk {
-		return nil, fmt.Errorf("reuse: the field walk (switch on the field kind taking Elem()) of alt.(*Recomposer).registerComposer not found")
+		return nil, fmt.Errorf("reuse: the field walk (switch or loop on the field kind taking Elem()) of alt.(*Recomposer).registerComposer not found")
 	}
 	var regWriters, lazyCallers []string
 	var akeys []string
@@ -1345,6 +1407,8 @@ func extractReuse(repo, out string) ([]string, error) {
 	}
 	b.WriteString("/-- reflect kinds named in the `switch ft.Kind()` of the field walk of alt.(*Recomposer).registerComposer -/\n")
 	fmt.Fprintf(&b, "def recomposerWalkKinds : List String := %s\n\n", ruLeanList(walkKinds))
+	b.WriteString("/-- the walk repeats the step until the type is no container (containers of containers are followed) -/\n")
+	fmt.Fprintf(&b, "def recomposerWalkLoops : Bool := %s\n\n", ruLeanBool(walkLoops))
 	b.WriteString("/-- functions of package alt that write `.composers[…]` -/\n")
 	fmt.Fprintf(&b, "def recomposerWriters : List String := %s\n\n", ruLeanList(regWriters))
 	b.WriteString("/-- callers of registerComposer/registerAnyComposer that are neither constructors nor Register* methods:\nregistration on the fly while a value is recomposed -/\n")
